@@ -34,6 +34,8 @@ def corpus_programs(limit=None, only_json=True):
 
 
 def prog_spec(p, compiled=False):
+    if "src_json" in p:
+        return {"json": p["src_json"]}
     if "file" in p and not p.get("use_ink"):
         return {"file": p["file"]}
     if "src" in p:
